@@ -31,17 +31,21 @@ import (
 // fake listener / conn / monitor
 
 type c58Monitor struct {
-	limit     int64
-	taken     atomic.Int64 // handed out by the fake listener, Close not yet called
-	returned  atomic.Int64 // returned by LimitListener.Accept to the caller, Close not yet called
-	handed    atomic.Int64 // total handed out
-	closedN   atomic.Int64 // conns closed at least once
-	maxTaken  atomic.Int64
-	dblClosed atomic.Int64
-	expect    int64         // stress: signal when closedN reaches this
-	allClosed chan struct{} // stress
-	mu        sync.Mutex
-	err       error
+	limit int64
+	// recloseNil makes a repeated Close of a wrapped conn return nil, as net.Pipe
+	// conns do (a *net.TCPConn returns an error); LimitListener must free exactly
+	// one slot either way.
+	recloseNil bool
+	taken      atomic.Int64 // handed out by the fake listener, Close not yet called
+	returned   atomic.Int64 // returned by LimitListener.Accept to the caller, Close not yet called
+	handed     atomic.Int64 // total handed out
+	closedN    atomic.Int64 // conns closed at least once
+	maxTaken   atomic.Int64
+	dblClosed  atomic.Int64
+	expect     int64         // stress: signal when closedN reaches this
+	allClosed  chan struct{} // stress
+	mu         sync.Mutex
+	err        error
 }
 
 func (m *c58Monitor) fail(format string, a ...any) {
@@ -81,6 +85,9 @@ func (c *c58Conn) Close() error {
 	defer c.mu.Unlock()
 	if c.closes.Add(1) > 1 {
 		c.mon.dblClosed.Add(1)
+		if c.mon.recloseNil {
+			return nil
+		}
 		return net.ErrClosed
 	}
 	c.mon.taken.Add(-1)
@@ -259,6 +266,8 @@ type c58Case struct {
 	Prefill int        `json:"prefill"` // conns queued in the wrapped listener before the first step
 	Workers int        `json:"workers"`
 	Sched   [][]c58Act `json:"sched"`
+	// RecloseNil: the wrapped conns return nil from a repeated Close (net.Pipe style).
+	RecloseNil bool `json:"reclose_nil"`
 }
 
 func c58Gen(t *rapid.T) c58Case {
@@ -284,10 +293,11 @@ func c58Gen(t *rapid.T) c58Case {
 		return rapid.SliceOfN(act, n, n).Draw(t, "acts")
 	})
 	return c58Case{
-		N:       rapid.IntRange(1, 4).Draw(t, "n"),
-		Prefill: rapid.IntRange(0, 6).Draw(t, "prefill"),
-		Workers: rapid.IntRange(2, 5).Draw(t, "workers"),
-		Sched:   rapid.SliceOfN(batch, 1, 40).Draw(t, "sched"),
+		N:          rapid.IntRange(1, 4).Draw(t, "n"),
+		Prefill:    rapid.IntRange(0, 6).Draw(t, "prefill"),
+		Workers:    rapid.IntRange(2, 5).Draw(t, "workers"),
+		Sched:      rapid.SliceOfN(batch, 1, 40).Draw(t, "sched"),
+		RecloseNil: rapid.Bool().Draw(t, "recloseNil"),
 	}
 }
 
@@ -320,7 +330,7 @@ func c58Prop(c c58Case, r *vp.Rec) error {
 
 func c58Run(c c58Case, r *vp.Rec) error {
 	n := c.Workers
-	mon := &c58Monitor{limit: int64(c.N)}
+	mon := &c58Monitor{limit: int64(c.N), recloseNil: c.RecloseNil}
 	feeds := c.Prefill
 	for _, b := range c.Sched {
 		feeds += len(b)
@@ -519,11 +529,12 @@ func TestVP_C58(t *testing.T) {
 // leaked slot shows up as a deadlock panic rather than a wall-clock timeout).
 
 type c58StressCase struct {
-	N         int    `json:"n"`
-	Acceptors int    `json:"acceptors"`
-	Closers   int    `json:"closers"`
-	Conns     int    `json:"conns"`
-	Seed      uint32 `json:"seed"` // per-conn choice: close once / twice / from two goroutines
+	N          int    `json:"n"`
+	Acceptors  int    `json:"acceptors"`
+	Closers    int    `json:"closers"`
+	Conns      int    `json:"conns"`
+	Seed       uint32 `json:"seed"` // per-conn choice: close once / twice / from two goroutines
+	RecloseNil bool   `json:"reclose_nil"`
 }
 
 func c58StressGen(t *rapid.T) c58StressCase {
@@ -532,11 +543,12 @@ func c58StressGen(t *rapid.T) c58StressCase {
 		scale = 4
 	}
 	return c58StressCase{
-		N:         rapid.IntRange(1, 4).Draw(t, "n"),
-		Acceptors: rapid.IntRange(1, 8).Draw(t, "acceptors"),
-		Closers:   rapid.IntRange(1, 6).Draw(t, "closers"),
-		Conns:     rapid.IntRange(1, 60*scale).Draw(t, "conns"),
-		Seed:      rapid.Uint32().Draw(t, "seed"),
+		N:          rapid.IntRange(1, 4).Draw(t, "n"),
+		Acceptors:  rapid.IntRange(1, 8).Draw(t, "acceptors"),
+		Closers:    rapid.IntRange(1, 6).Draw(t, "closers"),
+		Conns:      rapid.IntRange(1, 60*scale).Draw(t, "conns"),
+		Seed:       rapid.Uint32().Draw(t, "seed"),
+		RecloseNil: rapid.Bool().Draw(t, "recloseNil"),
 	}
 }
 
@@ -553,7 +565,7 @@ func c58StressProp(c c58StressCase, r *vp.Rec) error {
 }
 
 func c58Stress(c c58StressCase, r *vp.Rec) error {
-	mon := &c58Monitor{limit: int64(c.N), expect: int64(c.Conns), allClosed: make(chan struct{})}
+	mon := &c58Monitor{limit: int64(c.N), expect: int64(c.Conns), allClosed: make(chan struct{}), recloseNil: c.RecloseNil}
 	inner := c58NewListener(mon, c.Conns)
 	ll := LimitListener(inner, c.N)
 	toClose := make(chan net.Conn, 2*c.Conns)
